@@ -304,16 +304,21 @@ pub fn run_history(line: &str, with_diff: bool) -> String {
 pub fn main(args: &[String]) {
     std::panic::set_hook(Box::new(|_| { PANICS.fetch_add(1, SeqCst); }));
     NOVALS.store(args.iter().any(|a| a == "--novals"), SeqCst);
+    util::DEADLINE_SECS.store(90, SeqCst);      // a history takes well under 5 s; one that blocks for ever (a guard that is never handed over) is killed by the watchdog
     let fork = args.iter().any(|a| a == "--fork");
     let with_diff = !args.iter().any(|a| a == "--nodiff");
     let stdin = std::io::stdin();
     let mut line = String::new();
+    let mut hung = 0;
     while { line.clear(); stdin.read_line(&mut line).unwrap() > 0 } {
         let l = line.trim().to_string();
         if l.is_empty() { continue; }
         if fork {
             let id = l.split_whitespace().next().unwrap().to_string();
+            // after two histories of this batch had to be killed by the watchdog, the rest is not run (each would block for the whole deadline)
+            if hung >= 2 { util::emit(&format!("{id} CHILD skipped:earlier-histories-hung\n")); continue; }
             let (st, o) = util::fork_run(|| run_history(&l, with_diff));
+            if st == "signal:14" { hung += 1; }
             util::emit(&o);
             util::emit(&format!("{id} CHILD {st}\n"));
         } else {
